@@ -337,11 +337,12 @@ def r9_4(ctx):
     g = ctx.fn('yr_scanner_create', 'libyara/scanner.c')
     # the snapshot loop walks ext_vars_table and adds one object per entry
     has_loop = False
-    for n in g.all_nodes():
-        if n['k'] == 'while':
-            calls = [c.get('callee') for c in g.walk(n) if c['k'] == 'call']
-            if 'yr_object_from_external_variable' in calls and 'yr_hash_table_add' in calls:
-                has_loop = True
+    for h in cu.family(prog, g):
+        for n in h.all_nodes():
+            if n['k'] in ('while', 'for', 'do'):
+                calls = [c.get('callee') for c in h.walk(n) if c['k'] == 'call']
+                if 'yr_object_from_external_variable' in calls and 'yr_hash_table_add' in calls:
+                    has_loop = True
     ctx.ob('R9.4', 'yr_scanner_create:snapshot-loop', has_loop, '%s:%s' % (g.file, g.line),
            'yr_scanner_create creates and registers one object per external' if has_loop else
            'yr_scanner_create no longer snapshots every external')
